@@ -22,9 +22,9 @@
 (* matrix lands (placement of the code's own component matrices) and, for    *)
 (* the 2-D stiffeners, also WHAT lands: BladeStiff2D and TStiff2D k0 / kG0 / *)
 (* kM are derived below from PanelOps, ConnectionOps and Bardell (section    *)
-(* "the 2-D stiffeners").  Of BladeStiff1D only the flange mass is derived;  *)
-(* its beam stiffness / geometric stiffness use equivalent moduli of the     *)
-(* flange laminate (E1, F1, S1, Jxx) and stay on the placement route.        *)
+(* "the 2-D stiffeners"), and so are BladeStiff1D's (padup strip + flange as *)
+(* a laminated strip on the line y = ys: stiffness, axial-load geometric     *)
+(* stiffness, mass).                                                         *)
 (***************************************************************************)
 EXTENDS ConnectionOps, PanelNL
 
@@ -226,16 +226,16 @@ LineForm(terms, d, ys) ==
             LET da == DofOf(d, r)  i == IOf(d, r)  j == JOf(d, r)
                 db == DofOf(d, c)  k == IOf(d, c)  l == JOf(d, c)
                 f(t) == IF terms[t].a.dof = da /\ terms[t].b.dof = db
-                        THEN PScale2(RMul(terms[t].c, RDiv(d.a, Two)),
-                                     PMul2(AxisFactor("int", i, terms[t].a.dx, d.fl[da][1], d.a, RZero, k, terms[t].b.dx, d.fl[db][1], d.a, RZero),
-                                           AxisFactor("pt", j, terms[t].a.dy, d.fl[da][2], d.b, eta, l, terms[t].b.dy, d.fl[db][2], d.b, eta)))
+                        THEN LET p == PMul2(AxisFactor("int", i, terms[t].a.dx, d.fl[da][1], d.a, RZero, k, terms[t].b.dx, d.fl[db][1], d.a, RZero),
+                                            AxisFactor("pt", j, terms[t].a.dy, d.fl[da][2], d.b, eta, l, terms[t].b.dy, d.fl[db][2], d.b, eta))
+                             IN << RMul(RMul(terms[t].c, RDiv(d.a, Two)), p[1]), RMul(RMul(terms[t].cs, RDiv(d.a, Two)), p[2]) >>
                         ELSE PairZero
             IN << RSum(Fn([t \in 1..Len(terms) |-> f(t)[1]])), RSum(Fn([t \in 1..Len(terms) |-> f(t)[2]])) >>
     IN Fn([r \in 1..n |-> Fn([c \in 1..n |-> entry(r, c)])])
 B1dFlangeMass(bd, sd, dev) ==
     LET h == Thickness(bd.skin.stack)
         hf == Thickness(sd.flam.stack)
-        z0 == RDiv(h, Two)
+        z0 == RAdd(RDiv(h, Two), IF sd.base THEN Thickness(sd.blam.stack) ELSE RZero)     \* beyond the padup if there is one
         df == RAdd(z0, RDiv(sd.bf, Two))
         I2 == RMul(sd.bf, RAdd(RMul(z0, z0), RAdd(RMul(z0, sd.bf), RDiv(RMul(sd.bf, sd.bf), RFromInt(3)))))
         k == IF "KF_C13_Blade1DMassCouplingDoubled" \in dev THEN Two ELSE ROne
@@ -262,8 +262,7 @@ B1dFlangeMass(bd, sd, dev) ==
                     + base-to-flange "BFycte" at the base's centre line y = bb/2 and the flange's edge y = 0
                  kG0 = base + flange (own loads);   kM = base + flange
    Every number of a 2-D stiffener is therefore derived; nothing of them stays on the placed-code-matrices route
-   (which is kept as the independent check of WHERE the bay puts them).  Not derived: BladeStiff1D's beam stiffness
-   and geometric stiffness (fk0f / fkG0f with the equivalent moduli E1, F1, S1, Jxx) -- only its mass is.
+   (which is kept as the independent check of WHERE the bay puts them).  The 1-D blade stiffener follows below.
    KF_C13_TStiffBaseStripInBayCoordinates: the T stiffener's base panel (width bb) carries y1 = ys - bb/2,
    y2 = ys + bb/2 in BAY coordinates, so its own k0 / kG0 / kM integrate its series over eta in
    [2 ys/bb - 2, 2 ys/bb] instead of [-1, 1] (outside the panel unless ys = bb/2). *)
@@ -359,8 +358,74 @@ TStiffMatrix(bd, sd, r, dev) ==
     IN IF r.mat # "k0" THEN parts
        ELSE PAddM(parts, PAddM(SkinBaseConn(dSkin, dB, StripLo(sd), StripHi(sd), ktpb, HalfGap(bd, sd), size, n0),
                                BFConn(dB, dF, RDiv(sd.bb, Two), size, n0, n0 + nb)))
+(* ---- the 1-D blade stiffener ---------------------------------------------------------------------------- *)
+(* padup: as BladeStiff2D's (PadPd).  Flange: a laminated strip of height bf standing on the line y = ys, its
+   material points at distance z in [z0, z0 + bf] from the skin's mid-surface (z0 = h/2 + hb), plane stress across
+   its height (reduced stiffnesses Qr11 = Q11 - Q12^2/Q22, Qr16 = Q16 - Q12 Q26/Q22, Qr66 = Q66 - Q26^2/Q22 of each
+   ply in the flange's axes), bending with the skin (axial strain u,x + z w,xx) and twisting with it (rate w,xy):
+      U = 1/2 INT_0^a { A11r INT (u,x + z w,xx)^2 dz  -  4 B16r bf eps w,xy  +  4 D66r bf w,xy^2 } dx
+        = 1/2 bf INT_0^a { E1 eps^2 + F1 w,xx^2 + J w,xy^2 - 2 S eps w,xy } dx ,   eps = u,x + df w,xx
+   with E1 = A11r, F1 = E1 bf^2/12, J = 4 D66r, S = 2 B16r (A, B, D: integrals 1, z', z'^2 of the reduced
+   stiffness through the flange thickness about its mid-plane), df = z0 + bf/2.  The form is positive semi-definite
+   because [[A11r, B16r], [B16r, D66r]] is.  kG0: 1/2 Fx INT w,x^2.  kM: padup + the beam mass above.
+   KF_C13_Blade1DTwistTermsNotLaminate: the class takes J = hf bf^3/12 + bf hf^3/12 (a geometric polar moment, no
+   modulus) and S = -SUM y t Qr16 with y measured from the flange's first face: the form becomes indefinite when
+   S^2 > E1 J. *)
+RECURSIVE StripSums(_,_,_,_)
+(* <<A11r, B16r, D66r, |B16r| terms, first-face moment S, |S| terms>> accumulated over the plies; y0: first face of ply k
+   measured from the first face of the laminate, hf: laminate thickness *)
+StripSums(stack, k, y0, hf) ==
+    IF k > Len(stack) THEN <<RZero, RZero, RZero, RZero, RZero, RZero>>
+    ELSE LET q == QBar(stack[k])
+             t == stack[k].t
+             q11 == RSub(q[1][1], RDiv(RMul(q[1][2], q[1][2]), q[2][2]))
+             q16 == RSub(q[1][3], RDiv(RMul(q[1][2], q[2][3]), q[2][2]))
+             a16 == RAdd(RAbs(q[1][3]), RAbs(RDiv(RMul(q[1][2], q[2][3]), q[2][2])))
+             q66 == RSub(q[3][3], RDiv(RMul(q[2][3], q[2][3]), q[2][2]))
+             y == RAdd(y0, RDiv(t, Two))                       \* ply centre from the first face
+             z == RSub(y, RDiv(hf, Two))                        \* ... from the mid-plane
+             rest == StripSums(stack, k + 1, RAdd(y0, t), hf)
+         IN << RAdd(RMul(t, q11), rest[1]),
+               RAdd(RMul(RMul(z, t), q16), rest[2]),
+               RAdd(RMul(RAdd(RMul(t, RMul(z, z)), RDiv(RMul(t, RMul(t, t)), RFromInt(12))), q66), rest[3]),
+               RAdd(RMul(RMul(RAbs(z), t), a16), rest[4]),
+               RAdd(RNeg(RMul(RMul(y, t), q16)), rest[5]),
+               RAdd(RMul(RMul(y, t), a16), rest[6]) >>
+B1dStiffTerms(bf, df, E1, F1, J, S, Ss) ==
+    LET one == ROne
+        c(x) == RMul(bf, x)
+    IN << BT(T(U,1,0,one), T(U,1,0,one), c(E1), c(E1)),
+          BT(T(U,1,0,one), T(W,2,0,one), c(RMul(E1, df)), c(RMul(E1, df))), BT(T(W,2,0,one), T(U,1,0,one), c(RMul(E1, df)), c(RMul(E1, df))),
+          BT(T(W,2,0,one), T(W,2,0,one), c(RAdd(RMul(E1, RMul(df, df)), F1)), c(RAdd(RMul(E1, RMul(df, df)), F1))),
+          BT(T(W,1,1,one), T(W,1,1,one), c(J), c(J)),
+          BT(T(U,1,0,one), T(W,1,1,one), c(RNeg(S)), c(Ss)), BT(T(W,1,1,one), T(U,1,0,one), c(RNeg(S)), c(Ss)),
+          BT(T(W,2,0,one), T(W,1,1,one), c(RNeg(RMul(S, df))), c(RMul(Ss, df))), BT(T(W,1,1,one), T(W,2,0,one), c(RNeg(RMul(S, df))), c(RMul(Ss, df))) >>
+B1dFlangeStiff(bd, sd, dev) ==
+    LET hf == Thickness(sd.flam.stack)
+        ss == StripSums(sd.flam.stack, 1, RZero, hf)
+        code == "KF_C13_Blade1DTwistTermsNotLaminate" \in dev
+        bf == sd.bf
+        z0 == RAdd(RDiv(SkinH(bd), Two), IF sd.base THEN Thickness(sd.blam.stack) ELSE RZero)
+        df == RAdd(z0, RDiv(bf, Two))
+        E1 == ss[1]
+        F1 == RMul(E1, RDiv(RMul(bf, bf), RFromInt(12)))
+        J == IF code THEN RAdd(RDiv(RMul(hf, RMul(bf, RMul(bf, bf))), RFromInt(12)), RDiv(RMul(bf, RMul(hf, RMul(hf, hf))), RFromInt(12)))
+             ELSE RMul(Four, ss[3])
+        S == IF code THEN ss[5] ELSE RMul(Two, ss[2])
+        Ss == IF code THEN ss[6] ELSE RMul(Two, ss[4])
+    IN LineForm(B1dStiffTerms(bf, df, E1, F1, J, S, Ss), bd.skin, sd.ys)
+Blade1dMatrix(bd, sd, r, dev) ==
+    LET n0 == SkinN0(bd)
+        pad == IF sd.base /\ r.mat # "kG0" THEN PartMat(CompleteDef(PadPd(bd, sd)), r.mat, NoLoad, dev) ELSE PZero(n0)
+        fla == IF ~sd.flange THEN PZero(n0)
+               ELSE CASE r.mat = "k0" -> B1dFlangeStiff(bd, sd, dev)
+                      [] r.mat = "kG0" -> LineForm(<< BT(T(W,1,0,ROne), T(W,1,0,ROne), r.Nf[1], RAbs(r.Nf[1])) >>, bd.skin, sd.ys)   \* Fx = r.Nf[1]
+                      [] r.mat = "kM" -> B1dFlangeMass(bd, sd, dev)
+    IN PAddM(pad, fla)
 StiffMatrix(bd, r, dev) ==
-    LET sd == bd.stiffs[r.k] IN IF sd.kind = "b2d" THEN Blade2dMatrix(bd, sd, r, dev) ELSE TStiffMatrix(bd, sd, r, dev)
+    LET sd == bd.stiffs[r.k]
+    IN CASE sd.kind = "b1d" -> Blade1dMatrix(bd, sd, r, dev) [] sd.kind = "b2d" -> Blade2dMatrix(bd, sd, r, dev)
+         [] OTHER -> TStiffMatrix(bd, sd, r, dev)
 
 BayQuantity(bd, r, dev) ==
     CASE r.q = "size"  -> BaySize(bd)
@@ -380,6 +445,9 @@ BayOutcome(bd, r, dev) ==
     THEN "AttributeError"
     ELSE IF "KF_C20_Panel_calc_kM_model" \in dev /\ r.q = "kM"
             /\ \E i \in 1..Len(bd.stiffs) : bd.stiffs[i].kind = "b1d" /\ bd.stiffs[i].base
+    THEN "KeyError"
+    ELSE IF "KF_C20_Panel_calc_kM_model" \in dev /\ r.q = "stiff" /\ r.mat = "kM"
+            /\ bd.stiffs[r.k].kind = "b1d" /\ bd.stiffs[r.k].base
     THEN "KeyError"
     ELSE "value"
 
